@@ -15,9 +15,11 @@
                           lows_unique) any rebuild from scratch finds exactly that pairing.
      vine_swap_interacting      the interacting configuration (with V[i][i+1] = 0): one addition of the left of the two columns to the
                           right one restores reducedness, the right one gets low i;
-   NOT proved (stated in Properties_C06.v as C06_vine_swap_full): the configurations in which the preparing addition was needed and
-   has given columns i and i+1 the same low (one more addition between them after the exchange); every state reached by the implementation is certified by the verified
-   checker instead (ReduceExec.check_any). *)
+     prep_keeps_reduced / recomb_tri / recomb_reduced / recomb_as_addition   the configurations in which the preparing addition is
+                          really needed;
+     vine_swap_complete   all configurations together.
+   Not modelled: U/V as matrices, the stored barcode, lazily swapped rows; every state reached by the implementation is certified by
+   the verified checker instead (ReduceExec.check_any). *)
 From Coq Require Import ZArith Lia Znumtheory Arith List.
 Require Import Reduce ReduceAlg.
 Local Open Scope Z_scope.
@@ -306,17 +308,15 @@ Proof.
     destruct (Hexc j1 j2 m Hj1 Hj2 Hne Hl1 Hl2) as [[_ F]|[F _]]; tauto.
 Qed.
 
-Theorem vine_swap_interacting (D R : mat) a b :
-  tri D R -> reduced R ->
-  (exists c, zm (c i) /\ ~ zm (c (S i)) /\ veq (R (S i)) (comb D c (S (S i)))) ->
+Theorem vine_swap_interacting_gen (D R : mat) a b :
+  tri (pmat D) (pmat R) -> reduced R ->
   (a < n)%nat -> (b < n)%nat -> is_low (R a) (S i) -> ~ zm (R a i) -> is_low (R b) i ->
   exists x y c1, (x < y)%nat /\ (y < n)%nat /\
     ((x = tr b /\ y = tr a) \/ (x = tr a /\ y = tr b)) /\
     tri (pmat D) (col_add (pmat R) y x c1) /\ reduced (col_add (pmat R) y x c1) /\
     is_low (col_add (pmat R) y x c1 y) i /\ is_low (col_add (pmat R) y x c1 x) (S i).
 Proof.
-  intros Ht Hred Hc Ha Hb Hla Hnza Hlb.
-  pose proof (vine_swap_tri D R Ht Hc) as Ht'.
+  intros Ht' Hred Ha Hb Hla Hnza Hlb.
   assert (Hab : a <> b).
   { intros ->. assert (S i = i) by (apply (low_unique (R b)); assumption). lia. }
   assert (Htab : tr a <> tr b) by (intros H; apply Hab; apply tr_inj; exact H).
@@ -384,6 +384,247 @@ Proof.
     + exists (tr b), (tr a), c1. split; [exact Hgt|]. split; [exact Hta|]. split; [left; split; reflexivity|].
       split; [apply (tri_col_add p Hp n); assumption|]. split; [exact Hredn|]. split; [exact Hnew|].
       rewrite col_add_other by lia. exact LB.
+Qed.
+
+Theorem vine_swap_interacting (D R : mat) a b :
+  tri D R -> reduced R ->
+  (exists c, zm (c i) /\ ~ zm (c (S i)) /\ veq (R (S i)) (comb D c (S (S i)))) ->
+  (a < n)%nat -> (b < n)%nat -> is_low (R a) (S i) -> ~ zm (R a i) -> is_low (R b) i ->
+  exists x y c1, (x < y)%nat /\ (y < n)%nat /\
+    ((x = tr b /\ y = tr a) \/ (x = tr a /\ y = tr b)) /\
+    tri (pmat D) (col_add (pmat R) y x c1) /\ reduced (col_add (pmat R) y x c1) /\
+    is_low (col_add (pmat R) y x c1 y) i /\ is_low (col_add (pmat R) y x c1 x) (S i).
+Proof.
+  intros Ht Hred Hc. apply vine_swap_interacting_gen; [apply vine_swap_tri; assumption|exact Hred].
+Qed.
+
+(* ------------------------------------------------------------------ when the preparing addition is needed (V[i][i+1] <> 0) *)
+(* what the exchange needs of the three kinds of columns (vine_swap_tri is the case R' = R) *)
+Lemma tri_pmat_gen (D R' : mat) :
+  (forall j, (j < n)%nat -> j <> i -> j <> S i -> exists c, ~ zm (c j) /\ veq (R' j) (comb D c (S j))) ->
+  (exists c, zm (c i) /\ ~ zm (c (S i)) /\ veq (R' (S i)) (comb D c (S (S i)))) ->
+  (exists c, ~ zm (c i) /\ veq (R' i) (comb D c (S (S i)))) ->
+  tri (pmat D) (pmat R').
+Proof.
+  intros Hoth [cs [Hcs0 [Hcs1 Hcsv]]] [ci [Hci Hciv]] j Hj.
+  destruct (lt_eq_lt_dec j i) as [[Hlt|Heq]|Hgt].
+  - destruct (Hoth j Hj ltac:(lia) ltac:(lia)) as [c [Hc Hv]]. exists c. split; [exact Hc|].
+    intros r Hr. rewrite comb_pmat_low by lia. unfold pmat, pvec. rewrite (tr_other j) by lia.
+    apply Hv. apply tr_lt; exact Hr.
+  - subst j.
+    exists (fun k => if Nat.eq_dec k i then cs (S i) else cs k). split.
+    + destruct (Nat.eq_dec i i); [exact Hcs1|tauto].
+    + intros r Hr. cbn [comb]. rewrite comb_pmat_low by lia.
+      destruct (Nat.eq_dec i i) as [_|]; [|tauto].
+      rewrite (comb_ext_eq D _ cs i (tr r)) by (intros k Hk; destruct (Nat.eq_dec k i); [lia|reflexivity]).
+      unfold pmat, pvec. rewrite tr_i.
+      pose proof (Hcsv (tr r) (tr_lt r Hr)) as H. cbn [comb] in H.
+      replace (R' (S i) (tr r) - (comb D cs i (tr r) + cs (S i) * D (S i) (tr r)))
+        with ((R' (S i) (tr r) - (comb D cs i (tr r) + cs i * D i (tr r) + cs (S i) * D (S i) (tr r))) + cs i * D i (tr r)) by ring.
+      apply zm_add; [exact H|]. apply zm_mul_l. exact Hcs0.
+  - destruct (Nat.eq_dec j (S i)) as [->|Hne].
+    + exists (fun k => ci (tr k)). split; [rewrite tr_Si; exact Hci|].
+      intros r Hr. rewrite comb_pmat_both.
+      rewrite (comb_ext_eq D (fun k => (fun k0 => ci (tr k0)) (tr k)) ci (S (S i)) (tr r)) by (intros k Hk; rewrite tr_invol; reflexivity).
+      unfold pmat, pvec. rewrite tr_Si. apply Hciv. apply tr_lt; exact Hr.
+    + destruct (Hoth j Hj ltac:(lia) Hne) as [c [Hc Hv]].
+      exists (fun k => c (tr k)). split; [rewrite tr_other by lia; exact Hc|].
+      intros r Hr. rewrite comb_pmat_high by lia.
+      rewrite (comb_ext_eq D (fun k => (fun k0 => c (tr k0)) (tr k)) c (S j) (tr r)) by (intros k Hk; rewrite tr_invol; reflexivity).
+      unfold pmat, pvec. rewrite (tr_other j) by lia. apply Hv. apply tr_lt; exact Hr.
+Qed.
+
+(* w + c.v has the low of v when c is invertible and w is zero or has a smaller low *)
+Lemma add_scaled_low (v w : vec) c m :
+  is_low v m -> ~ zm c -> (is_zero w \/ exists m', (m' < m)%nat /\ is_low w m') ->
+  is_low (fun r => w r + c * v r) m.
+Proof.
+  intros [Hm [Hnz Hz]] Hc Hw.
+  assert (Hwz : forall r, (m <= r < n)%nat -> zm (w r)).
+  { intros r Hr. destruct Hw as [Hw0|[m' [Hlt [_ [_ Hw1]]]]]; [apply Hw0; lia|apply Hw1; lia]. }
+  split; [exact Hm|]. split.
+  - apply zm_add_r; [apply Hwz; lia|apply nzm_mul; assumption].
+  - intros r Hr. apply zm_add; [apply Hwz; lia|apply zm_mul_r; apply Hz; exact Hr].
+Qed.
+
+(* first sub-case: the preparing addition leaves R reduced (column i is zero or has the smaller low); the theorems above then apply
+   to the prepared matrix *)
+Theorem prep_keeps_reduced (R : mat) c0 :
+  reduced R ->
+  (is_zero (R i) \/ exists li ls, is_low (R i) li /\ is_low (R (S i)) ls /\ (li < ls)%nat) ->
+  reduced (col_add R (S i) i c0).
+Proof.
+  intros Hred Hcase.
+  assert (Hback : forall m, is_low (col_add R (S i) i c0 (S i)) m -> is_low (R (S i)) m).
+  { intros m Hl. destruct Hcase as [Hz|[li [ls [Hli [Hls Hlt]]]]].
+    - apply (veq_is_low p Hp n (col_add R (S i) i c0 (S i))); [|exact Hl].
+      intros r Hr. rewrite col_add_same. replace (R (S i) r + c0 * R i r - R (S i) r) with (c0 * R i r) by ring.
+      apply zm_mul_r. apply Hz. exact Hr.
+    - assert (Hnew : is_low (col_add R (S i) i c0 (S i)) ls).
+      { destruct Hls as [A [B C]]. destruct Hli as [A' [B' C']]. split; [exact A|]. split.
+        - rewrite col_add_same. apply zm_add_l; [exact B|apply zm_mul_r; apply C'; lia].
+        - intros r Hr. rewrite col_add_same. apply zm_add; [apply C; exact Hr|apply zm_mul_r; apply C'; lia]. }
+      assert (m = ls) by (apply (low_unique (col_add R (S i) i c0 (S i))); assumption). subst. exact Hls. }
+  intros j1 j2 m Hj1 Hj2 Hne Hl1 Hl2.
+  assert (F : forall j, is_low (col_add R (S i) i c0 j) m -> is_low (R j) m).
+  { intros j Hl. destruct (Nat.eq_dec j (S i)) as [->|N]; [apply Hback; exact Hl|].
+    rewrite col_add_other in Hl by exact N. exact Hl. }
+  exact (Hred j1 j2 m Hj1 Hj2 Hne (F j1 Hl1) (F j2 Hl2)).
+Qed.
+
+(* second sub-case: column i has the larger low.  After the preparing addition columns i and i+1 have the same low; the
+   implementation exchanges and then adds (the new) column i to column i+1, which up to a scalar gives back the old column i+1.  The
+   result is the conjugate of [recomb R c0]: column i+1 := R_{i+1} + c0.R_i, column i := R_{i+1}. *)
+Definition recomb (R : mat) (c0 : Z) : mat :=
+  fun j => if Nat.eq_dec j (S i) then (fun r => R (S i) r + c0 * R i r) else if Nat.eq_dec j i then R (S i) else R j.
+
+Lemma recomb_Si R c0 r : recomb R c0 (S i) r = R (S i) r + c0 * R i r.
+Proof. unfold recomb. destruct (Nat.eq_dec (S i) (S i)); [reflexivity|tauto]. Qed.
+Lemma recomb_i R c0 : recomb R c0 i = R (S i).
+Proof. unfold recomb. destruct (Nat.eq_dec i (S i)); [lia|]. destruct (Nat.eq_dec i i); [reflexivity|tauto]. Qed.
+Lemma recomb_other R c0 j : j <> i -> j <> S i -> recomb R c0 j = R j.
+Proof. intros H1 H2. unfold recomb. destruct (Nat.eq_dec j (S i)); [tauto|]. destruct (Nat.eq_dec j i); [tauto|reflexivity]. Qed.
+
+Theorem recomb_tri (D R : mat) c0 :
+  tri D R ->
+  (exists c, ~ zm (c i) /\ veq (R (S i)) (comb D c (S (S i)))) ->
+  (exists c, zm (c i) /\ ~ zm (c (S i)) /\ veq (col_add R (S i) i c0 (S i)) (comb D c (S (S i)))) ->
+  tri (pmat D) (pmat (recomb R c0)).
+Proof.
+  intros Ht Hci [cs [H0 [H1 Hv]]]. apply tri_pmat_gen.
+  - intros j Hj N1 N2. rewrite recomb_other by assumption. apply Ht. exact Hj.
+  - exists cs. split; [exact H0|]. split; [exact H1|].
+    intros r Hr. rewrite recomb_Si. rewrite <- col_add_same. apply Hv. exact Hr.
+  - rewrite recomb_i. exact Hci.
+Qed.
+
+Theorem recomb_reduced (R : mat) c0 li :
+  reduced R -> ~ zm c0 -> is_low (R i) li ->
+  (is_zero (R (S i)) \/ exists ls, (ls < li)%nat /\ is_low (R (S i)) ls) ->
+  reduced (recomb R c0) /\ is_low (recomb R c0 (S i)) li.
+Proof.
+  intros Hred Hc0 Hli Hcase.
+  assert (Hnew : is_low (recomb R c0 (S i)) li).
+  { pose proof (add_scaled_low (R i) (R (S i)) c0 li Hli Hc0 Hcase) as H.
+    destruct H as [A [B C]]. split; [exact A|]. split; [rewrite recomb_Si; exact B|].
+    intros r Hr. rewrite recomb_Si. apply C. exact Hr. }
+  split; [|exact Hnew].
+  assert (F : forall j m, (j < n)%nat -> is_low (recomb R c0 j) m -> is_low (R (tr j)) m).
+  { intros j m Hj Hl. destruct (Nat.eq_dec j (S i)) as [->|N1].
+    - assert (m = li) by (apply (low_unique (recomb R c0 (S i))); assumption). subst. rewrite tr_Si. exact Hli.
+    - destruct (Nat.eq_dec j i) as [->|N2].
+      + rewrite recomb_i in Hl. rewrite tr_i. exact Hl.
+      + rewrite recomb_other in Hl by assumption. rewrite tr_other by assumption. exact Hl. }
+  intros j1 j2 m Hj1 Hj2 Hne Hl1 Hl2.
+  apply (Hred (tr j1) (tr j2) m (tr_lt j1 Hj1) (tr_lt j2 Hj2)).
+  - intros E. apply Hne. apply tr_inj. exact E.
+  - apply F; assumption.
+  - apply F; assumption.
+Qed.
+
+(* ------------------------------------------------------------------ all configurations together *)
+Theorem kill_coefficient_strong (D R : mat) : tri D R ->
+  exists c0, tri D (col_add R (S i) i c0) /\
+    (exists c, zm (c i) /\ ~ zm (c (S i)) /\ veq (col_add R (S i) i c0 (S i)) (comb D c (S (S i)))) /\
+    (zm c0 \/ exists c, ~ zm (c i) /\ veq (R (S i)) (comb D c (S (S i)))).
+Proof.
+  intros Ht. destruct (Ht (S i) Hi) as [c [Hc Hv]].
+  destruct (zm_dec p (c i)) as [Hz|Hnz].
+  - exists 0. split; [apply (tri_col_add p Hp n); [exact Ht|lia|exact Hi]|]. split; [|left; exact zm_0].
+    exists c. split; [exact Hz|]. split; [exact Hc|].
+    intros r Hr. rewrite col_add_same. replace (R (S i) r + 0 * R i r) with (R (S i) r) by ring. apply Hv. exact Hr.
+  - destruct (kill_coefficient D R Ht) as [c0 [Ht1 HU]]. exists c0. split; [exact Ht1|]. split; [exact HU|].
+    right. exists c. split; [exact Hnz|exact Hv].
+Qed.
+
+Lemma prep_zero_reduced (R : mat) c0 : reduced R -> zm c0 -> reduced (col_add R (S i) i c0).
+Proof.
+  intros Hred Hz j1 j2 m Hj1 Hj2 Hne Hl1 Hl2.
+  assert (F : forall j, is_low (col_add R (S i) i c0 j) m -> is_low (R j) m).
+  { intros j Hl. destruct (Nat.eq_dec j (S i)) as [->|N].
+    - apply (veq_is_low p Hp n (col_add R (S i) i c0 (S i))); [|exact Hl].
+      intros r Hr. rewrite col_add_same. replace (R (S i) r + c0 * R i r - R (S i) r) with (c0 * R i r) by ring.
+      apply zm_mul_l. exact Hz.
+    - rewrite col_add_other in Hl by exact N. exact Hl. }
+  exact (Hred j1 j2 m Hj1 Hj2 Hne (F j1 Hl1) (F j2 Hl2)).
+Qed.
+
+Lemma interacting_dec (R : mat) : reduced R ->
+  {ab : nat * nat | (fst ab < n)%nat /\ (snd ab < n)%nat /\ is_low (R (fst ab)) (S i) /\ ~ zm (R (fst ab) i) /\ is_low (R (snd ab)) i}
+  + {~ interacting R}.
+Proof.
+  intros Hred.
+  destruct (earlier_low_dec p n R n (S i)) as [[a [Ha Hla]]|Hna].
+  - destruct (zm_dec p (R a i)) as [Hz|Hnz].
+    + right. intros [a' [b' [Ha' [_ [Hla' [Hnz' _]]]]]].
+      destruct (Nat.eq_dec a' a) as [->|N]; [tauto|]. exact (Hred a' a (S i) Ha' Ha N Hla' Hla).
+    + destruct (earlier_low_dec p n R n i) as [[b [Hb Hlb]]|Hnb].
+      * left. exists (a, b). cbn [fst snd]. tauto.
+      * right. intros [a' [b' [_ [Hb' [_ [_ Hlb']]]]]]. exact (Hnb b' Hb' Hlb').
+  - right. intros [a' [b' [Ha' [_ [Hla' _]]]]]. exact (Hna a' Ha' Hla').
+Qed.
+
+(* Whatever the configuration: one preparing addition (possibly with coefficient 0), the exchange, and at most two more additions
+   (one between the exchanged columns - folded into [recomb] - and one between the two interacting columns) end in a reduced
+   decomposition of the new order. *)
+Theorem vine_swap_complete (D R : mat) : tri D R -> reduced R ->
+  exists c0 R', (R' = col_add R (S i) i c0 \/ R' = recomb R c0) /\
+    reduced R' /\ tri (pmat D) (pmat R') /\
+    (reduced (pmat R') \/
+     exists x y c1, (x < y)%nat /\ (y < n)%nat /\ tri (pmat D) (col_add (pmat R') y x c1) /\ reduced (col_add (pmat R') y x c1)).
+Proof.
+  intros Ht Hred. destruct (kill_coefficient_strong D R Ht) as [c0 [Ht1 [HU Hz]]].
+  assert (finish : forall R', reduced R' -> tri (pmat D) (pmat R') ->
+     reduced (pmat R') \/
+     exists x y c1, (x < y)%nat /\ (y < n)%nat /\ tri (pmat D) (col_add (pmat R') y x c1) /\ reduced (col_add (pmat R') y x c1)).
+  { intros R' Hr' Ht'. destruct (interacting_dec R' Hr') as [[[a b] [Ha [Hb [Hla [Hnz Hlb]]]]]|Hno].
+    - right. cbn [fst snd] in *.
+      destruct (vine_swap_interacting_gen D R' a b Ht' Hr' Ha Hb Hla Hnz Hlb) as [x [y [c1 [Hxy [Hy [_ [T [Rd _]]]]]]]].
+      exists x, y, c1. tauto.
+    - left. apply swap_keeps_reduced; assumption. }
+  assert (caseA : reduced (col_add R (S i) i c0) ->
+     exists c0 R', (R' = col_add R (S i) i c0 \/ R' = recomb R c0) /\ reduced R' /\ tri (pmat D) (pmat R') /\
+       (reduced (pmat R') \/
+        exists x y c1, (x < y)%nat /\ (y < n)%nat /\ tri (pmat D) (col_add (pmat R') y x c1) /\ reduced (col_add (pmat R') y x c1))).
+  { intros Hr1. exists c0, (col_add R (S i) i c0). split; [left; reflexivity|]. split; [exact Hr1|].
+    pose proof (vine_swap_tri D (col_add R (S i) i c0) Ht1 HU) as T. split; [exact T|]. apply finish; assumption. }
+  destruct (zm_dec p c0) as [Hc0|Hc0]; [apply caseA; apply prep_zero_reduced; assumption|].
+  destruct Hz as [Hc0'|Hci]; [contradiction|].
+  assert (caseB : forall li, is_low (R i) li -> (is_zero (R (S i)) \/ exists ls, (ls < li)%nat /\ is_low (R (S i)) ls) ->
+     exists c0 R', (R' = col_add R (S i) i c0 \/ R' = recomb R c0) /\ reduced R' /\ tri (pmat D) (pmat R') /\
+       (reduced (pmat R') \/
+        exists x y c1, (x < y)%nat /\ (y < n)%nat /\ tri (pmat D) (col_add (pmat R') y x c1) /\ reduced (col_add (pmat R') y x c1))).
+  { intros li Hli Hcase. exists c0, (recomb R c0). split; [right; reflexivity|].
+    destruct (recomb_reduced R c0 li Hred Hc0 Hli Hcase) as [Hr' _]. split; [exact Hr'|].
+    pose proof (recomb_tri D R c0 Ht Hci HU) as T. split; [exact T|]. apply finish; assumption. }
+  destruct (low_or_zero (R i)) as [Zi|[li Hli]].
+  - apply caseA. apply prep_keeps_reduced; [exact Hred|left; exact Zi].
+  - destruct (low_or_zero (R (S i))) as [Zs|[ls Hls]].
+    + apply (caseB li Hli). left. exact Zs.
+    + destruct (lt_eq_lt_dec li ls) as [[Hlt|Heq]|Hgt].
+      * apply caseA. apply prep_keeps_reduced; [exact Hred|right; exists li, ls; tauto].
+      * subst ls. exfalso. apply (Hred i (S i) li); try lia; assumption.
+      * apply (caseB li Hli). right. exists ls. tauto.
+Qed.
+
+(* [recomb] is what the implementation computes with one addition after the exchange, up to an invertible scalar on column i+1 *)
+Lemma recomb_as_addition (R : mat) c0 : ~ zm c0 ->
+  exists c2, ~ zm c2 /\
+    (forall j r, j <> S i -> col_add (pmat (col_add R (S i) i c0)) (S i) i c2 j r = pmat (recomb R c0) j r) /\
+    (forall r, zm (col_add (pmat (col_add R (S i) i c0)) (S i) i c2 (S i) r - c2 * pmat (recomb R c0) (S i) r)).
+Proof.
+  intros Hc0. destruct (inv_exists p Hp c0 Hc0) as [u Hu]. exists (- u). split; [|split].
+  - intros Hz. apply (nzm_1 p Hp). replace 1 with ((- u) * c0 * (-1) - (u * c0 - 1)) by ring.
+    apply zm_sub; [apply zm_mul_l; apply zm_mul_l; exact Hz|exact Hu].
+  - intros j r Hj. rewrite col_add_other by exact Hj. unfold pmat, pvec.
+    destruct (Nat.eq_dec j i) as [->|Hji].
+    + rewrite tr_i. rewrite col_add_same. rewrite recomb_Si. reflexivity.
+    + rewrite (tr_other j) by assumption. rewrite col_add_other by exact Hj. rewrite recomb_other by assumption. reflexivity.
+  - intros r. rewrite col_add_same. unfold pmat, pvec. rewrite tr_Si, tr_i.
+    rewrite col_add_same. rewrite (col_add_other R (S i) i c0 i) by lia. rewrite recomb_i.
+    replace (R i (tr r) + - u * (R (S i) (tr r) + c0 * R i (tr r)) - - u * R (S i) (tr r))
+      with (- (R i (tr r)) * (u * c0 - 1)) by ring.
+    apply zm_mul_r. exact Hu.
 Qed.
 
 End Swap.
